@@ -40,8 +40,10 @@ RULE = (
     "persistent ObjectDBIndex obtained from get_index(remote): push(closed request: directories with all their "
     "files or shallow=False; optional upload-failure subset or abort injected at the final placement call; "
     "cache_odb = cache or remote as index.push does), fetch(closed request into a fresh empty store with "
-    "src_index), status(arbitrary query, shallow/expanded, with the index), delete_remote(external deletion of "
-    "directory and/or file objects), reopen (close + get_index again, fresh store objects). Invariants after "
+    "src_index), status(arbitrary query, shallow/expanded, with the index; trees read from the cache or, shallow, "
+    "from the remote itself), delete_remote(external deletion of directory and/or file objects, preferring "
+    "indexed directories), reopen (close + get_index again, fresh store objects) and, rarely, delete_cache (file "
+    "objects vanish from the cache so that later pushes fail for lack of a source). Invariants after "
     "every step, from os.walk: every directory id a status answer (direct, or seen through validate_status "
     "inside push/fetch) reports as existing in the remote is in the remote at that moment; every file id so "
     "reported is in the remote, was delivered earlier, or is listed by a directory object that is there; every "
